@@ -251,11 +251,18 @@ class Check:
             elif ch["other"]:
                 self.escalation["level"] = 1
         cap = getattr(mod, "ESCALATE_MAX_CASES", None) if gen_tier != self.tier else None
+        if cap:
+            # a bounded escalated run = the COMPLETE quick stream (every stream of the generator is represented) followed by
+            # the thorough stream up to the bound (the thorough tier proper is not bounded)
+            for c in mod.cases(rng, self.tier):
+                c.setdefault("_origin", "gen")
+                cases.append(c)
+            rng = random.Random(f"{self.prop}-{self.seed}-esc")
         for c in mod.cases(rng, gen_tier):
             c.setdefault("_origin", "gen")
             cases.append(c)
             if cap and len(cases) >= cap:
-                break       # an I/O-heavy property bounds its escalated run (the thorough tier proper is not bounded)
+                break
         if self.escalation["level"] == 1:
             seen = {c.get("req") for c in cases if c.get("req") is not None}
             for k in (1, 2):
